@@ -15,6 +15,7 @@ from .. import edgecases as EC
 from .. import graphcases as GC
 from .. import graphs
 from . import c03
+from ..core import library_debug_logging
 
 
 class ScaledRange(graphs.RangeEdge):
@@ -119,7 +120,8 @@ def check(run):
             for n, (e_case, e) in enumerate(zip(c['edges'], g._edges)):
                 if e_case['cls'] in fam:
                     try:
-                        held[n] = e.calc_jacobians()
+                        with library_debug_logging(run.replayed % 4 < 2):
+                            held[n] = e.calc_jacobians()
                     except Exception:  # noqa  (reported below, where the call is repeated)
                         pass
             run.notes['graphs_with_jacobians_collected_first'] = run.notes.get('graphs_with_jacobians_collected_first', 0) + 1
@@ -139,7 +141,8 @@ def check(run):
             key = dict(part='jacobian', family=e_case['cls'], kind=c['verts'][e_case['vs'][0] - 1]['k'])
             before = [np.array(v.pose) for v in e.vertices]
             try:
-                jacs = held[n] if n in held else e.calc_jacobians()
+                with library_debug_logging(run.replayed % 4 < 2):          # (half of the graphs with the library's loggers at DEBUG level)
+                    jacs = held[n] if n in held else e.calc_jacobians()
             except Exception as ex:  # noqa
                 run.violation(dict(key, outcome='raised'), 'calc_jacobians raised %r | edge %r' % (ex, e_case), dict(case=c, edge=n))
                 continue
